@@ -12,24 +12,24 @@ open SdnsVerif.Model.Blocklist SdnsVerif.Lemmas.Blocklist
 /-! ## 1. Matching -/
 
 /-
-Full-strength statement (FALSE, see the two counter-witnesses below):
+Statement with no restriction at all (FALSE, counter-witness `exists_ne_spec_root_entry`):
 
   ∀ P Wd Wh K,  «exists» (memOf P Wd Wh) (pres K) = specBlocked P Wd Wh (lowerName K)
 
-i.e. for all label-level entry sets and all names, the string walk of `Exists`
-computes the property's rule.  It fails (a) when a label contains an escaped dot
-and (b) when the root is an entry.  What holds is the statement below; the two
-excluded shapes are run against the real code by the oracle of harness/c18.
+It fails when the ROOT is an entry (recorded as a known finding; the oracle of
+harness/c18 keeps flagging it).  Everything else is covered by the theorem below:
+every query name, including labels with escaped dots, escaped backslashes and
+`\DDD` — since the fix of the parent walk (`nextLabel`) the escaped-dot
+restriction of the earlier `…_partial` version is gone.
 -/
 
-/-- **`Exists` is the property's rule** on names without an escaped dot inside a
-label, for entry sets that do not contain the root: the name is reported
-blocked exactly when it or a parent is a plain entry, or a strict parent is a
-wildcard entry, and neither it nor a parent is whitelisted — whole labels,
-case-insensitively (the query is folded; entries are stored folded).
-`hfq` says the rendered query is fully qualified as `dns.IsFqdn` sees it (its
-last label does not end in an unescaped backslash). -/
-theorem exists_iff_spec_partial (P Wd Wh : List Name) (K : Name)
+/-- **`Exists` is the property's rule**, for ALL names and all entry sets that
+do not contain the root: the name is reported blocked exactly when it or a
+parent is a plain entry, or a strict parent is a wildcard entry, and neither it
+nor a parent is whitelisted — compared on whole labels (an escaped dot is part of
+its label), case-insensitively (the query is folded; entries are stored folded).
+`hfq` says the rendered query is fully qualified as `dns.IsFqdn` sees it. -/
+theorem exists_iff_spec (P Wd Wh : List Name) (K : Name)
     (hK : NameOK K) (hfq : isFqdn (pres K) = true)
     (hP : ∀ e ∈ P, EntryOK e) (hWd : ∀ e ∈ Wd, EntryOK e) (hWh : ∀ e ∈ Wh, EntryOK e) :
     «exists» (memOf P Wd Wh) (pres K) = specBlocked P Wd Wh (lowerName K) := by
@@ -43,25 +43,29 @@ theorem exists_iff_spec_partial (P Wd Wh : List Name) (K : Name)
       Hit_pres_iff _ hn P (fun e he => ⟨(hP e he).1, (hP e he).2.1⟩),
       suffixHit_pres_iff _ hn Wd (fun e he => ⟨(hWd e he).1, (hWd e he).2.1⟩)]
 
-/-- Counter-witness (a) to the full statement — **escaped dot**: with
-`example.com.` listed, the name whose labels are `x\.example` and `com` (its
-only parents are `com.` and the root) is reported blocked. -/
-theorem exists_ne_spec_escaped_dot :
+/-- **Escaped dot is not a label boundary** (the former counter-witness, now in
+agreement): with `example.com.` listed, the name whose labels are `x\.example`
+and `com` is not blocked, for the code as for the rule; `x\\.example.com.`
+(label `x\\`, then `example`, `com`) is a subdomain and is blocked. -/
+theorem escaped_dot_not_boundary :
     «exists» (memOf [["example".toList, "com".toList]] [] [])
-        (pres ["x\\.example".toList, "com".toList]) = true ∧
+        (pres ["x\\.example".toList, "com".toList]) = false ∧
     specBlocked [["example".toList, "com".toList]] [] []
-        (lowerName ["x\\.example".toList, "com".toList]) = false := by
+        (lowerName ["x\\.example".toList, "com".toList]) = false ∧
+    «exists» (memOf [["example".toList, "com".toList]] [] [])
+        (pres ["x\\\\".toList, "example".toList, "com".toList]) = true := by
   decide
 
-/-- Counter-witness (b) — **root entry**: with the root listed as a plain entry
-every name has a listed parent, but `Exists` only reports the root itself. -/
+/-- Counter-witness to the unrestricted statement — **root entry**: with the root
+listed as a plain entry every name has a listed parent, but `Exists` only
+reports the root itself. -/
 theorem exists_ne_spec_root_entry :
     «exists» (memOf [[]] [] []) (pres ["example".toList, "com".toList]) = false ∧
     specBlocked [[]] [] [] (lowerName ["example".toList, "com".toList]) = true ∧
     «exists» (memOf [[]] [] []) (pres []) = true := by
   decide
 
--- non-vacuity of `exists_iff_spec_partial`: plain parent, wildcard apex, whitelist precedence
+-- non-vacuity of `exists_iff_spec`: plain parent, wildcard apex, whitelist precedence
 example : «exists» (memOf [["example".toList, "com".toList]] [["ads".toList, "net".toList]] [["ok".toList, "example".toList, "com".toList]])
     (pres ["Sub".toList, "EXAMPLE".toList, "com".toList]) = true := by decide
 example : «exists» (memOf [["example".toList, "com".toList]] [["ads".toList, "net".toList]] [["ok".toList, "example".toList, "com".toList]])
@@ -102,8 +106,8 @@ theorem label_boundary (e pre : Str) (hpre : pre ≠ []) (hdot : '.' ∉ pre)
     exact hpre this
   have hsuf : ∀ s ∈ dotSuffixes (pre ++ e), s ≠ e := by
     intro s hs h'
-    rw [dotSuffixes_append_nodot _ _ hdot, h'] at hs
-    have := dotSuffixes_length_lt _ _ hs
+    have := dotSuffixes_glued_lt pre e s hdot hs
+    rw [h'] at this
     omega
   rcases h.2 with (h | ⟨s, hs, h⟩) | ⟨s, hs, h⟩
   · exact hne (by simpa using h)
